@@ -33,7 +33,7 @@ pub fn decode_log(log: &[u8]) -> (Vec<Rec>, Vec<u8>, Option<String>) {
 }
 
 struct Job { data: Vec<u8>, flush_after: bool }
-struct W { idx: usize, rtype: u8, jobs: Vec<Job>, cur: usize, in_flush: bool, done_payloads: Vec<Vec<u8>>, dead: bool }
+struct W { idx: usize, rtype: u8, jobs: Vec<Job>, cur: usize, in_flush: bool, done_payloads: Vec<Vec<u8>>, dead: bool, was_pending: bool }
 
 // =====================================================================================================  C10
 pub fn run_c10(ctx: &mut Ctx) {
@@ -96,7 +96,7 @@ pub fn run_c10(ctx: &mut Ctx) {
             let njobs = 1 + rng.usize_below(4);
             let jobs = (0..njobs).map(|_| { let len = if big && rng.chance(1, 3) { *rng.pick(&[65535usize, 65536, 70000]) } else { *rng.pick(&[0usize, 1, 7, 8, 9, 15, 16, 17, 100, 300]) + rng.usize_below(3) * rng.usize_below(2) };
                 Job { data: rng.bytes(len), flush_after: rng.chance(1, 4) } }).collect();
-            ws.push(W { idx, rtype, jobs, cur: 0, in_flush: false, done_payloads: vec![], dead: false });
+            ws.push(W { idx, rtype, jobs, cur: 0, in_flush: false, done_payloads: vec![], dead: false, was_pending: false });
         }
         if abort_case { or.count("filter_not_writeable"); continue; }
         let mut wlog: Vec<u8> = vec![];
@@ -118,14 +118,26 @@ pub fn run_c10(ctx: &mut Ctx) {
                 if let Some(idx) = o.strip_prefix('w').and_then(|r| r.split(' ').next()).and_then(|x| x.parse::<usize>().ok()) {
                     let njobs = 1 + rng.usize_below(3);
                     let jobs = (0..njobs).map(|_| { let len = *rng.pick(&[1usize, 7, 8, 9, 30, 200]); Job { data: rng.bytes(len), flush_after: rng.chance(1, 4) } }).collect();
-                    ws.push(W { idx, rtype: srtype, jobs, cur: 0, in_flush: false, done_payloads: vec![], dead: false });
+                    ws.push(W { idx, rtype: srtype, jobs, cur: 0, in_flush: false, done_payloads: vec![], dead: false, was_pending: false });
                     or.count("clones_made_mid_schedule");
                 } else { or.fail(format!("cloning a writer failed: {o}"), log.replay_block(), "C10:clone".into()); }
                 continue;
             }
             let wi = *rng.pick(&active);
             let w = &mut ws[wi];
-            let o = if w.in_flush { ex(&mut log, &mut im, &format!("a.fpoll {}", w.idx)) } else { ex(&mut log, &mut im, &format!("a.wpoll {} {}", w.idx, hexd(&w.jobs[w.cur].data))) };
+            // AsyncWrite allows a Pending write to be polled again with a DIFFERENT buffer; the realistic case is the same bytes with more
+            // behind them.  A record already begun keeps the length its header announced (the call then returns the old length); a record
+            // not yet begun is sized by the buffer of the call that begins it
+            let mut longer: Option<Vec<u8>> = None;
+            if !w.in_flush && w.was_pending && rng.chance(1, 5) { let mut d = w.jobs[w.cur].data.clone(); let extra = 1 + rng.usize_below(20); d.extend(rng.bytes(extra)); longer = Some(d); or.count("repolls_with_longer_buffer"); }
+            let o = if w.in_flush { ex(&mut log, &mut im, &format!("a.fpoll {}", w.idx)) } else { ex(&mut log, &mut im, &format!("a.wpoll {} {}", w.idx, hexd(longer.as_ref().unwrap_or(&w.jobs[w.cur].data)))) };
+            if !w.in_flush { w.was_pending = o.starts_with("pending"); }
+            if let (Some(d), true) = (&longer, o.starts_with("ready")) {
+                // whichever length the record got, its payload is that prefix of the longer buffer
+                let n: usize = o.split(' ').nth(1).and_then(|x| x.parse().ok()).unwrap_or(usize::MAX);
+                if n == d.len().min(65535) { w.jobs[w.cur].data = d.clone(); }
+                else if n != w.jobs[w.cur].data.len().min(65535) { or.fail(format!("poll_write re-polled with a longer buffer returned Ok({n}): neither the length of the record already begun ({}) nor that of the new buffer ({})", w.jobs[w.cur].data.len(), d.len()), log.replay_block(), "C10:count-longer".into()); }
+            }
             wlog.extend(unhex(field(&o, "wd").unwrap_or("-")));
             if let Some(e) = field(&o, "ev") { if e.contains(":P") || e.split(',').any(|x| { let mut it = x.split(':'); let l = it.next().unwrap_or(""); let r = it.next().unwrap_or(""); l.starts_with('V') && r.parse::<usize>().ok() != l[1..].split('+').map(|z| z.parse::<usize>().unwrap_or(0)).sum::<usize>().into() }) { shortw = true; } }
             if o.starts_with("pending") { pend_streak += 1; } else { pend_streak = 0; }
